@@ -308,11 +308,17 @@ Definition ntok_src (t : ntok) : bytes :=
 Definition stok_src (t : stok) : bytes :=
   match t with StBitvec => bs "SortToken::Bitvec" | StArray => bs "SortToken::Array" end.
 
+(* the tables are compared as sets of rows: the order of the arms of a `match` on distinct literals / variants is
+   immaterial, so reordering them in the source must not break the tie *)
+Definition row_eqb (r1 r2 : bytes * bytes) : bool := bytes_eqb (fst r1) (fst r2) && bytes_eqb (snd r1) (snd r2).
+Definition same_rows (a b : list (bytes * bytes)) : bool :=
+  (nlen a =? nlen b) && forallb (fun r => existsb (row_eqb r) b) a && forallb (fun r => existsb (row_eqb r) a) b.
+
 Lemma node_keywords_tie :
-  List.map (fun '(k, t) => (k, ntok_src t)) node_keywords_b = Consts.btor2_node_keywords.
+  same_rows (List.map (fun '(k, t) => (k, ntok_src t)) node_keywords_b) Consts.btor2_node_keywords = true.
 Proof. vm_compute. reflexivity. Qed.
 Lemma sort_keywords_tie :
-  List.map (fun '(k, t) => (k, stok_src t)) sort_keywords_b = Consts.btor2_sort_keywords.
+  same_rows (List.map (fun '(k, t) => (k, stok_src t)) sort_keywords_b) Consts.btor2_sort_keywords = true.
 Proof. vm_compute. reflexivity. Qed.
 
 (* the writer's operator names (UnaryOp::name, BinaryOp::name, TernaryOp::name) against the table
@@ -322,7 +328,7 @@ Definition op_name_rows : list (bytes * bytes) :=
       [UoUext 0; UoSext 0; UoSlice 0 0; UoNot; UoInc; UoDec; UoNeg; UoRedand; UoRedor; UoRedxor]
   ++ List.map (fun o => (bs "BinaryOp::" ++ binop_variant o, binop_kw o)) all_binops
   ++ List.map (fun o => (bs "TernaryOp::" ++ ternop_variant o, ternop_kw o)) [ToIte; ToWrite].
-Lemma op_names_tie : op_name_rows = Consts.btor2_op_names.
+Lemma op_names_tie : same_rows op_name_rows Consts.btor2_op_names = true.
 Proof. vm_compute. reflexivity. Qed.
 
 (* the fixed texts of the writer *)
